@@ -115,8 +115,18 @@ func (p *pool) runShare(jobs []execJob, todo []cell, out [][]cellOutcome, ncpu i
 		}
 		atomic.AddInt64(&p.children, 1)
 		p.sem <- struct{}{}
+		t0 := time.Now()
 		oc, err := runChild(p.dir, req, ncpu, gcOff, false, p.idle)
 		<-p.sem
+		if os.Getenv("C07_DEBUG") == "2" { // diagnostics only
+			nb := 0
+			for _, c := range todo {
+				if jobs[c.j].Settings[c.s].B != 0 {
+					nb++
+				}
+			}
+			fmt.Fprintf(os.Stderr, "c07: child with %d cells (%d RocksDB, collector off: %v) took %.1fs\n", len(todo), nb, gcOff, time.Since(t0).Seconds())
+		}
 		if err != nil {
 			p.fail(err.Error())
 			return
